@@ -38,7 +38,10 @@ class SimClock:
         # the standard library polls real child processes with time.sleep (subprocess.Popen.wait with a timeout,
         # e.g. setuptools_scm running git when spsdk/__version__.py is absent): that is a wait for a real process,
         # so it takes real time and no simulated time - otherwise the number of polls would leak into the clock
-        if sys._getframe(1).f_globals.get("__name__") == "subprocess":
+        # the same holds for filelock polling a lock file that another real process (a sibling worker sharing the
+        # SPSDK cache folder) holds: a wait for a real resource, not part of the simulated system
+        caller = sys._getframe(1).f_globals.get("__name__") or ""
+        if caller == "subprocess" or caller == "filelock" or caller.startswith("filelock."):
             _real["sleep"](min(max(float(s), 0.0), 0.005))
             return
         us = int(max(float(s), 0.0) * 1e6)
